@@ -18,6 +18,7 @@ EXPLANATION = ("Four-way table agreement (constructor parameters, exported keys 
                "shapes, re-link assignments) extracted from the syntax tree; definite-assignment check of constructors by "
                "abstract interpretation; SIMREL(C) from the effect sets of simulation-reachable code.")
 ASSUMPTIONS = ["files are written by the same version of the library"]
+EXHAUSTIVE = True  # the deciding tables range over the complete finite domain
 TECHNIQUE = "table agreement between sibling codecs extracted from the AST + definite assignment by abstract interpretation"
 
 # constructor parameters that are deliberately not part of the base saved format (one line of reason each)
